@@ -26,15 +26,15 @@ type c10Stream struct {
 }
 
 type c10Case struct {
-	Stream int  `json:"stream"`
-	BAM    bool `json:"bam"`
-	Trunc  int  `json:"trunc"` // >=0: truncation length; -1: substitution
-	Pos    int  `json:"pos"`
-	Val    int  `json:"val"`
-	RD     int  `json:"rd"`
-	Procs  int  `json:"procs"`
-	Chunk  int  `json:"chunk"`
-	Delay  int  `json:"delay"`
+	Stream int    `json:"stream"`
+	BAM    bool   `json:"bam"`
+	Trunc  int    `json:"trunc"` // >=0: truncation length; -1: substitution
+	Pos    int    `json:"pos"`
+	Val    int    `json:"val"`
+	RD     int    `json:"rd"`
+	Procs  int    `json:"procs"`
+	Chunk  int    `json:"chunk"`
+	Delay  int    `json:"delay"`
 	Kind   string `json:"reader_kind"`
 }
 
